@@ -332,6 +332,9 @@ where
 {
     /// Creates a new set of keys.
     pub fn new(from_keys: Vec<K>) -> Self {
+        // the initial keys take the segments `0..from_keys.len()`, so the first
+        // segment handed out by `next_key()` must come after them
+        let current_key = from_keys.len();
         let mut keys = FxHashMap::with_capacity_and_hasher(
             from_keys.len(),
             Default::default(),
@@ -343,7 +346,7 @@ where
 
         Self {
             spare_keys: Vec::new(),
-            current_key: 0,
+            current_key,
             keys,
         }
     }
